@@ -737,6 +737,8 @@ class Prop(fw.PropBase):
             tag = {'fn': 'obtain_counts(generate_commands)', 'lib': {k: lib[k] for k in ('contigs', 'reads')}, 'run': run}
             if (mp_ == 1) != py_pre(lib, run):
                 dis.append(dict(tag, what='python precondition differs from Coq [pre]', model=mp_))
+            if not (run['b'] > 0 and run['k'] > 0):
+                continue    # outside every hypothesis (bin size / bins per job not positive): raise, loop or empty result - free
             if m[0] != 0:
                 if 'error' not in rr or not rr['error'].startswith('ValueError'):
                     dis.append(dict(tag, model='Raise %d' % m[0], impl=rr))
@@ -748,7 +750,9 @@ class Prop(fw.PropBase):
             exp = {tuple(c[:5]): c[5] for c in m[1]}
             # a negative bin size is outside every hypothesis of the statement (bin sizes are positive): which cells such
             # a run produces is not constrained and not compared
-            if run['b'] > 0 and (got is None or got != exp or len(exp) != len(m[1])):
+            # likewise sites outside their contig or farther from the read than max_fragment_size (hypotheses of every
+            # theorem: where such records end up differs between admissible job lists) - compared only inside [pre]
+            if run['b'] > 0 and py_pre(lib, run) and (got is None or got != exp or len(exp) != len(m[1])):
                 dis.append(dict(tag, model=sorted(exp.items()), impl=sorted((got or {}).items())))
             # the python oracle used by search() is the Coq [decl] (theorem statement) - tie them
             dd = {tuple(c[:5]): c[5] for c in md[0]}
@@ -764,10 +768,11 @@ class Prop(fw.PropBase):
         it = iter(mj)
         for (lens, b, k), rj in zip(payload['jobs'], res['jobs']):
             exp = [[ci, lo, hi] for ci, L in enumerate(lens) for lo, hi in next(it)]
-            if b * k == 0 and lens:
-                if 'error' not in rj or not rj['error'].startswith('ValueError'):
-                    dis.append({'fn': 'generate_commands', 'input': [lens, b, k], 'model': 'ValueError', 'impl': rj})
-            elif rj.get('jobs') != exp or not rj.get('passthrough'):
+            if not (b > 0 and k > 0):
+                continue    # bin size and bins per job are positive in every statement: what other values do is not compared
+            # the end of the last job of a contig may lie at or beyond the contig end (nothing lives there): compared clipped
+            clip = lambda js: [[ci, lo, min(hi, lens[ci])] for ci, lo, hi in js] if isinstance(js, list) else js
+            if clip(rj.get('jobs')) != clip(exp) or not rj.get('passthrough'):
                 dis.append({'fn': 'generate_commands', 'input': [lens, b, k], 'model': exp[:6], 'impl': rj if 'error' in rj else rj['jobs'][:6]})
         fin = [[0 if f[0] is None else 1, f[0] or 0] + f[1:] for f in payload['filters']]
         mf = fw.run_model('C12', 4, fin)
@@ -814,6 +819,43 @@ def _hist(it):
 def _tile_spec(lens, b, k):
     w = b * k
     return [[ci, i * w, (i + 1) * w] for ci, L in enumerate(lens) for i in range(-(-L // w))]
+
+
+def _tile_ok(lens, b, k, jobs):
+    """statement C12_jobs_tile on the implementation's job list: per contig, in contig order, consecutive jobs that start at
+    0, meet on multiples of bin_size*bins_per_job and cover the contig (the last end may lie at or beyond the contig end)"""
+    if not isinstance(jobs, list):
+        return False
+    w = b * k
+    per = {}
+    order = []
+    for j in jobs:
+        if not (isinstance(j, list) and len(j) == 3):
+            return False
+        if j[0] not in per:
+            order.append(j[0])
+        per.setdefault(j[0], []).append(j[1:])
+    if order != sorted(order) or any(jobs[i][0] > jobs[i + 1][0] for i in range(len(jobs) - 1)):
+        return False
+    for ci, L in enumerate(lens):
+        js = per.get(ci, [])
+        if L <= 0:
+            if js:
+                return False
+            continue
+        pos = 0
+        for n, (lo, hi) in enumerate(js):
+            last = n == len(js) - 1
+            if lo != pos or lo % w != 0 or hi <= lo or lo >= L:
+                return False
+            if not last and hi != lo + w:
+                return False
+            if last and not (L <= hi <= lo + w):
+                return False
+            pos = hi
+        if not js:
+            return False
+    return set(per) <= set(range(len(lens)))
 
 
 def _filter_spec(f):
@@ -882,7 +924,7 @@ def _search(self):
     for (lens, b, k), rj in zip(payload['jobs'], res['jobs']):
         if b > 0 and k > 0:
             exp = _tile_spec(lens, b, k)
-            if rj.get('jobs') != exp or not rj.get('passthrough'):
+            if not _tile_ok(lens, b, k, rj.get('jobs')) or not rj.get('passthrough'):
                 size = sum(lens) + b + k
                 if best is None or size < best[0]:
                     best = (size, {'key': 'jobs', 'what': 'generate_commands(contig lengths %r, bin_size=%d, bins_per_job=%d) does not tile the '
